@@ -439,7 +439,8 @@ def run(loader, R, tier):
                     "same meaning to their container")
     WRAP = {"vectorint_push_back": ("push_back",),
             "vecbasic_push_back": ("push_back",),
-            "vecbasic_get": ("[] read",), "vecbasic_set": ("[] =",),
+            "vecbasic_get": ("[] read", "at"),
+            "vecbasic_set": ("[] =", "at"),
             "vecbasic_erase": ("erase",), "vecbasic_size": ("size",),
             "setbasic_insert": ("insert",), "setbasic_find": ("find",),
             "setbasic_erase": ("erase",), "setbasic_size": ("size",),
